@@ -90,6 +90,13 @@ func sharedSchema() *jsonapi.Schema {
 	t10 := softType("t10", fields10, kindMap{})
 	t10.NewFunc = func() jsonapi.Resource { return jsonapi.Wrap(reflect.New(st10).Interface()) }
 	must(s.AddType(*t10))
+	// a struct-backed type with a two-way relationship to itself, as BuildType leaves it (the
+	// cardinality of the far side is not filled in)
+	typ13, err := jsonapi.BuildType(reflect.New(structType("t13", defMap{
+		"boss":    {Kind: "rel", To1: true, TT: "t13", TN: "reports"},
+		"reports": {Kind: "rel", To1: false, TT: "t13", TN: "boss"}}, kindMap{})).Interface())
+	must(err)
+	must(s.AddType(typ13))
 	// a type declared by hand, every field under a key that is not its name
 	must(s.AddType(jsonapi.Type{Name: "t12",
 		Attrs: map[string]jsonapi.Attr{"k0": {Name: "a12", Type: jsonapi.AttrTypeString}, "k1": {Name: "b12", Type: jsonapi.AttrTypeInt}},
@@ -204,7 +211,8 @@ func sharedOp(s *jsonapi.Schema, op string, p int) {
 			panic("the text of the URL carries another request's filter label: " + str)
 		}
 		// requests that name the hand-declared type and its fields (whatever the answer, a question)
-		for _, raw := range []string{"/t12?fields[t12]=b12,a12,r12&sort=-b12", "/t12/1/r12", "/t12?include=r12&fields[t1]=a"} {
+		for _, raw := range []string{"/t12?fields[t12]=b12,a12,r12&sort=-b12", "/t12/1/r12", "/t12?include=r12&fields[t1]=a",
+			"/t13/1/reports", "/t13/1/relationships/boss", "/t13/1/boss?include=reports.boss", "/t1/1/relationships/m", "/t2/x/p"} {
 			if u, err := jsonapi.NewURLFromRaw(s, raw); err == nil {
 				_ = u.String()
 			}
